@@ -30,8 +30,18 @@ def make_scratch(repo=extract.REPO):
 
 
 def apply_edit(root, m):
-    """m['edits'] = [(relpath, old, new)], each `old` must occur exactly once."""
+    """m['edits'] = [(relpath, old, new)], each `old` must occur exactly once;
+    or m['patch'] = path of a unified diff (seeded change) applied with `git apply`."""
     saved = []
+    if m.get("patch"):
+        files = re.findall(r"^\+\+\+ b/(\S+)", open(m["patch"]).read(), re.M)
+        for rel in files:
+            p = os.path.join(root, rel)
+            saved.append((p, open(p).read() if os.path.exists(p) else None))
+        r = subprocess.run(["git", "apply", "--whitespace=nowarn", m["patch"]], cwd=root, stdout=subprocess.PIPE, stderr=subprocess.STDOUT, text=True)
+        if r.returncode != 0:
+            raise RuntimeError("mutation %s: patch does not apply: %s" % (m["id"], r.stdout[-300:]))
+        return saved
     for rel, old, new in m["edits"]:
         p = os.path.join(root, rel)
         s = open(p).read()
@@ -46,7 +56,11 @@ def apply_edit(root, m):
 
 def revert(saved):
     for p, s in saved:
-        open(p, "w").write(s)
+        if s is None:
+            if os.path.exists(p):
+                os.remove(p)
+        else:
+            open(p, "w").write(s)
 
 
 def run_prop(pid, facts_dir, h):
